@@ -4,6 +4,9 @@ use crate::case::*;
 use crate::prog::*;
 
 pub fn fails_same(c: &Case, classes: &[String], run: &dyn Fn(&Case) -> Option<RunOut>) -> bool {
+    if !c.prog.valid() {
+        return false;
+    }
     match run(c) {
         Some(o) => o.viol.iter().any(|v| classes.contains(&v.class)),
         None => false,
